@@ -13,6 +13,7 @@ What is *not* here (tied by correspondence only, see NOTES-C09.md): the real nom
 -/
 import SwimVerif.Proofs.ReconStyles
 import SwimVerif.Proofs.ReconInc
+import SwimVerif.Proofs.ReconIncCoupled
 
 set_option linter.unusedVariables false
 namespace SwimVerif.Recon
@@ -199,19 +200,32 @@ theorem C09_chunked_eq_unchunked (d : Raw) (buf c : List Char) (cs : List (List 
     rawRun d buf (c :: cs) = rawRun d buf [c ++ cs.flatten] := rawRun_merge lexPrimM_stable cs d buf c
 
 open SwimVerif.ReconInc in
-/-- **Incremental = one-shot**, given the coupling between parser stack and recogniser stated in `FlushCoupled`
-(a recogniser cannot be flushed while the parser is in a nested state): for every text and every chunking of it,
-feeding the chunks then end-of-input yields exactly the one-shot parser's result — the same value, or an error
-(`Ok(None)` at the end of the input counted as an error). -/
-theorem C09_incremental_eq_oneshot_of_coupling (hC : FlushCoupled) (c : List Char) (cs : List (List Char)) :
-    cls (rawRun {} [] (c :: cs)) = cls (parseOne (c :: cs).flatten) :=
-  rawRun_eq_parseOne lexPrimM_stable hC c cs
+/-- **The parser stack and the recogniser move in step** (the coupling the next theorem rests on): wherever a decoder
+run started on a fresh decoder stops to ask for more input with a parser stack other than `[Init]` / `[AfterAttr]`
+(the only stacks that have a final-segment parser), `ValueMaterializer::try_flush` has nothing to give.  Proved by an
+invariant carried through every parser call: frame for frame the recogniser is "in the body" exactly where the parser
+is in a body state. -/
+theorem C09_recogniser_coupled : FlushCoupled := flushCoupled
 
 open SwimVerif.ReconInc in
-/-- The remaining obligation for the unconditional statement: `ValueMaterializer::try_flush` answers nothing while
-the parser stack is anything but `[Init]` / `[AfterAttr]` (an invariant linking the two stacks through every step). -/
-def C09_incremental_eq_oneshot_open : Prop :=
-  ∀ (c : List Char) (cs : List (List Char)), cls (rawRun {} [] (c :: cs)) = cls (parseOne (c :: cs).flatten)
+/-- **Incremental = one-shot** (character level): for every text and every chunking of it, feeding the chunks to a
+fresh `RecognizerDecoder` (`decode` per chunk on buffer ++ chunk) and then `decode_eof` yields exactly what the one-shot
+`parse_recognize::<Value>` yields on the whole text — the same value, or an error (`cls`: the decoder's `Ok(None)` at
+the end of the input counts as the error it stands for).  Chunks are lists of characters: `read_utf8`'s splitting of a
+byte buffer at an incomplete trailing sequence is part of the executable model (and compared with the real decoder on
+every byte cut by the `chunksm` engine) but not of this statement, see `C09_incremental_eq_oneshot_bytes_open`. -/
+theorem C09_incremental_eq_oneshot (c : List Char) (cs : List (List Char)) :
+    cls (rawRun {} [] (c :: cs)) = cls (parseOne (c :: cs).flatten) :=
+  rawRun_eq_parseOne lexPrimM_stable flushCoupled c cs
+
+open SwimVerif.ReconInc in
+/-- Open: the same over byte chunks that may cut a multi-byte character.  The exact obligation is a fact about
+`read_utf8` alone: on every prefix of the UTF-8 encoding of a text it returns the characters whose encoding is complete
+and leaves the (at most 3) bytes of the cut one, and `utf8LenL` is the encoded length — with it `rawRunB` on byte chunks
+is `rawRun` on the corresponding character chunks.  (Not attempted: `charsOfBytes` is core's `String.fromUTF8?`.) -/
+def C09_incremental_eq_oneshot_bytes_open : Prop :=
+  ∀ (T : List Char) (bcs : List (List Nat)), bcs ≠ [] → bcs.flatten = bytesOfChars T →
+    cls (rawRunB {} [] bcs) = cls (parseOne T)
 
 example : SwimVerif.ReconInc.rawRun {} [] ["@a(1".toList, "2) {x".toList, ":".toList, " \"y\"}".toList] =
     SwimVerif.ReconInc.rawRun {} [] ["@a(1".toList ++ ["2) {x".toList, ":".toList, " \"y\"}".toList].flatten] :=
